@@ -48,22 +48,22 @@ func bubble(f func() error) (verr error) {
 }
 
 type Input struct {
-	Gaps   []int `json:"gaps"`          // ms before each value; len = number of values
-	Buf    int   `json:"buf,omitempty"` // channel capacity (chans.*)
-	ErrAt  int   `json:"errat"`         // stream.Merge: -1 none, else fails with E once this many items are out
-	Blocks bool  `json:"blocks,omitempty"` // stream.Merge: after its items the input blocks until its ctx ends
-	ErrKind int  `json:"errkind,omitempty"` // 0 = plain sentinel, 1 = an error wrapping context.Canceled, 2 = wrapping context.DeadlineExceeded
+	Gaps    []int `json:"gaps"`              // ms before each value; len = number of values
+	Buf     int   `json:"buf,omitempty"`     // channel capacity (chans.*)
+	ErrAt   int   `json:"errat"`             // stream.Merge: -1 none, else fails with E once this many items are out
+	Blocks  bool  `json:"blocks,omitempty"`  // stream.Merge: after its items the input blocks until its ctx ends
+	ErrKind int   `json:"errkind,omitempty"` // 0 = plain sentinel, 1 = an error wrapping context.Canceled, 2 = wrapping context.DeadlineExceeded
 	// Lib (stream.Merge): the input is one of the library's own streams instead of a recording double:
 	// stream.Empty() when it has no values, stream.FromIterator(iterator.Slice(..)) otherwise (no gaps)
 	Lib bool `json:"lib,omitempty"`
 }
 
 type Plan struct {
-	Inputs []Input `json:"inputs"`
-	Pace   []int   `json:"pace"`  // consumer: ms before each receive (cycled)
-	OutBuf int     `json:"outbuf,omitempty"`
-	CloseAfter int `json:"close_after"` // stream.Merge: -1 = read to the end, else Close after this many items
-	CallMs     int `json:"call_ms,omitempty"` // stream.Merge: per-call timeout of the consumer (0 = none); an expired call is retried
+	Inputs     []Input `json:"inputs"`
+	Pace       []int   `json:"pace"` // consumer: ms before each receive (cycled)
+	OutBuf     int     `json:"outbuf,omitempty"`
+	CloseAfter int     `json:"close_after"`       // stream.Merge: -1 = read to the end, else Close after this many items
+	CallMs     int     `json:"call_ms,omitempty"` // stream.Merge: per-call timeout of the consumer (0 = none); an expired call is retried
 	// Replicate
 	Dsts []Dst `json:"dsts,omitempty"`
 }
@@ -644,4 +644,165 @@ func TestStreamMergeSimultaneousEnd(t *testing.T) {
 	suite.Crashy = true
 	vk.Run(t, suite, "stream-merge-burst", 300, genBurst, runBurst)
 	suite.Crashy = false
+}
+
+// ---------------------------------------------------------------- chans.Merge next to another receiver on one of its inputs
+//
+// An input of Merge may be a work queue that somebody else receives from as well (a second Merge, a
+// plain worker). Merge then moves what IT receives: together with what the other receiver took that is
+// exactly what was sent, and nothing that nobody sent (no zero values conjured up from a closed or
+// drained input) ever comes out.
+
+type SharedPlan struct {
+	Arity  int `json:"arity"`
+	Buf    int `json:"buf"`
+	N      int `json:"n"` // values per input
+	Rounds int `json:"rounds"`
+}
+
+func genShared(t *rapid.T) SharedPlan {
+	return SharedPlan{Arity: rapid.SampledFrom([]int{1, 2, 2, 2, 3, 4, 5}).Draw(t, "arity"), Buf: rapid.SampledFrom([]int{1, 2, 4, 8}).Draw(t, "buf"),
+		N: rapid.IntRange(1, 12).Draw(t, "n"), Rounds: rapid.IntRange(50, 200).Draw(t, "rounds")}
+}
+
+func runShared(p SharedPlan) (vk.Outcome, error) {
+	var out vk.Outcome
+	err := bubble(func() error {
+		for round := 0; round < p.Rounds; round++ {
+			ins := make([]chan int, p.Arity)
+			ro := make([]<-chan int, p.Arity)
+			var prod sync.WaitGroup
+			for i := range ins {
+				ins[i] = make(chan int, p.Buf)
+				ro[i] = ins[i]
+				prod.Add(1)
+				go func(i int) {
+					defer prod.Done()
+					for k := 0; k < p.N; k++ {
+						ins[i] <- val(i, k)
+					}
+					close(ins[i])
+				}(i)
+			}
+			outc := make(chan int, 1)
+			mergeDone := make(chan struct{})
+			go func() { chans.Merge(outc, ro...); close(outc); close(mergeDone) }()
+			var stolen []int
+			thiefDone := make(chan struct{})
+			go func() { // the other receiver on input 0: takes what it can get until the input is closed
+				defer close(thiefDone)
+				for v := range ins[0] {
+					stolen = append(stolen, v)
+				}
+			}()
+			var merged []int
+			for v := range outc {
+				merged = append(merged, v)
+			}
+			<-thiefDone
+			<-mergeDone
+			prod.Wait()
+			seen := map[int]bool{}
+			for _, v := range append(append([]int{}, merged...), stolen...) {
+				i, k := v/1000-1, v%1000
+				if i < 0 || i >= p.Arity || k >= p.N {
+					return vk.Violf("invented-value", "round %d: chans.Merge over %d inputs (one of them shared with another receiver) delivered %d, which nobody sent; merged %v", round, p.Arity, v, merged)
+				}
+				if seen[v] {
+					return vk.Violf("duplicate", "round %d: value %d was delivered twice", round, v)
+				}
+				seen[v] = true
+			}
+			if len(seen) != p.Arity*p.N {
+				return vk.Violf("lost-value", "round %d: %d of %d values arrived (merged %d, taken by the other receiver %d)", round, len(seen), p.Arity*p.N, len(merged), len(stolen))
+			}
+			last := map[int]int{}
+			for _, v := range merged {
+				i, k := v/1000-1, v%1000
+				if l, ok := last[i]; ok && k < l {
+					return vk.Violf("order", "round %d: input %d out of order in the merged output: %v", round, i, merged)
+				}
+				last[i] = k
+			}
+		}
+		return nil
+	})
+	out.NonTrivial, out.Execs = p.Arity >= 2, p.Rounds
+	out.Label(fmt.Sprintf("shared-input/arity=%d", p.Arity))
+	return out, err
+}
+
+func TestChansMergeSharedInput(t *testing.T) {
+	theT = t
+	vk.Run(t, suite, "chans-merge-shared", 60, genShared, runShared)
+}
+
+// ---------------------------------------------------------------- stream.Merge: which error wins when an input fails
+//
+// One input fails while the others sit in a Next that honours its context. Merge cancels them when it
+// sees the failure; their "context canceled" is Merge's own doing and must never be what the consumer
+// is told. The window (a cancelled sibling overtaking the failing input's report) is a few instructions
+// wide, so: many rounds, several idle siblings.
+
+type ErrStormPlan struct {
+	Idle   int `json:"idle"`  // inputs that block until their context ends
+	After  int `json:"after"` // the failing input yields this many values first
+	Rounds int `json:"rounds"`
+}
+
+func genErrStorm(t *rapid.T) ErrStormPlan {
+	return ErrStormPlan{Idle: rapid.IntRange(1, 6).Draw(t, "idle"), After: rapid.IntRange(0, 2).Draw(t, "after"), Rounds: rapid.IntRange(100, 500).Draw(t, "rounds")}
+}
+
+func runErrStorm(p ErrStormPlan) (vk.Outcome, error) {
+	var out vk.Outcome
+	err := bubble(func() error {
+		for round := 0; round < p.Rounds; round++ {
+			E := sk.NewSentinel("E")
+			var ss []stream.Stream[int]
+			var recs []*sk.RecStream[int]
+			items := make([]int, p.After)
+			for k := range items {
+				items[k] = val(0, k)
+			}
+			f := sk.NewRecStream("failing", items)
+			f.FinalAt, f.Final = p.After, E
+			recs, ss = append(recs, f), append(ss, stream.Stream[int](f))
+			for i := 0; i < p.Idle; i++ {
+				r := sk.NewRecStream[int](fmt.Sprintf("idle%d", i), nil)
+				r.BlockAt = 0
+				recs, ss = append(recs, r), append(ss, stream.Stream[int](r))
+			}
+			// the failing input goes to a random position among the idle ones
+			pos := round % len(ss)
+			ss[0], ss[pos] = ss[pos], ss[0]
+			m := stream.Merge(ss...)
+			var final error
+			for i := 0; i <= p.After+1; i++ {
+				_, err := m.Next(context.Background())
+				if err != nil {
+					final = err
+					break
+				}
+			}
+			m.Close()
+			if !errors.Is(final, E) {
+				return vk.Violf("wrong-error", "round %d: one input failed with E while %d others were idle in a context-aware Next; the merged stream reported %v", round, p.Idle, final)
+			}
+			for _, r := range recs {
+				if err := r.Ownership(); err != nil {
+					return vk.Violf("ownership", "round %d: after Close of the merged stream: %v", round, err)
+				}
+			}
+		}
+		return nil
+	})
+	out.NonTrivial, out.Execs = true, p.Rounds
+	out.Label("merge-error-storm")
+	return out, err
+}
+
+func TestStreamMergeErrorStorm(t *testing.T) {
+	theT = t
+	vk.Run(t, suite, "stream-merge-error-storm", 40, genErrStorm, runErrStorm)
 }
